@@ -8,6 +8,7 @@ import Frost.Model.Wire
 import Frost.Model.Resume
 import Frost.Model.Secrets
 import Frost.Model.Json
+import Frost.Model.RerandPkg
 
 namespace Frost.Driver
 open Frost Frost.Wire
@@ -193,6 +194,15 @@ def runWireOp (S : Suite F E) (hdr : Bytes) (op : String) (a : Args) : String :=
         let id ← arg a "id" C.pS
         pure (fmtOut C (fun kp => "kp=" ++ fmtKp C kp) (Resume.repairPart3 S hdr pkp ss id))
       | _ => none
+    | "rand_new_pkg", _ => do
+      let vk ← arg a "vk" C.pE
+      let cs ← arg a "comms" (pRecs (pComm C))
+      let msg ← arg a "msg" parseHex
+      let tape ← arg a "tape" parseHex
+      pure (fmtOut C (fun (r : RandomizedParams F E × Tape) =>
+        "r=" ++ C.sS r.1.randomizer ++ " rE=" ++ C.sE r.1.randomizerElement ++
+        " rvk=" ++ C.sE r.1.randomizedVk ++ used tape r.2)
+        (RandomizedParams.newFromPackage S hdr vk ⟨SMap.ofList lt cs, msg⟩ tape))
     | "json_ser", _ => do
       let js := fun (o : Option String) => match o with
         | some t => "ok j=" ++ toHex t.toUTF8.toList
